@@ -21,7 +21,7 @@ COMPONENTS = {
 }
 ASSUMPTIONS = ['the adversary cannot compute keyed MACs (replay is under an existing name)', 'hash collisions do not occur']
 PROBES = ['flip', 'truncate', 'extend', 'swap', 'replay', 'delete', 'pair', 'restore_raised', 'restore_ok_intact', 'restore_ok_without_damaged_snapshot', 'warm_cache']
-TIERS = {'quick': {'budget_s': 45, 'batch': 2}, 'thorough': {'budget_s': 900, 'batch': 2}}
+TIERS = {'quick': {'budget_s': 45, 'batch': 1}, 'thorough': {'budget_s': 900, 'batch': 2}}
 
 
 def gen_case(seed, tier):
